@@ -570,6 +570,21 @@ func (r *FnResult) transfer(b *ssa.BasicBlock, in State, visit func(ssa.Instruct
 			if isCell(st.Addr) {
 				s.del("nil:cell:" + st.Addr.Name())
 				s.del("nn:cell:" + st.Addr.Name())
+				// the cell now holds what was stored
+				if isNilConst(st.Val) || s.has("nil:"+st.Val.Name()) {
+					s.add("nil:cell:" + st.Addr.Name())
+				} else if s.has("nn:" + st.Val.Name()) {
+					s.add("nn:cell:" + st.Addr.Name())
+				}
+			}
+		}
+		if al, ok := ins.(*ssa.Alloc); ok {
+			// a fresh variable of interface / pointer type is nil
+			if pt, ok := al.Type().Underlying().(*types.Pointer); ok {
+				switch pt.Elem().Underlying().(type) {
+				case *types.Interface, *types.Pointer:
+					s.add("nil:cell:" + al.Name())
+				}
 			}
 		}
 		for _, sp := range r.fl.specs {
